@@ -61,7 +61,9 @@ RULE = ("pairs/triples of trees generated independently from small alphabets (so
         "between building, mutating, deep-copying and comparing the trees, restored after every case; sources whose member "
         "names (selected by the same predicates) live in exact-size driver-owned heap buffers (JSON_C_OBJECT_ADD_CONSTANT_KEY), "
         "with the key pointers of the copy checked against the source's and the buffers, the buffers changed in place, then "
-        "poisoned and freed after the source was destroyed, the copy observed after each step; plus a small-scope EXHAUSTIVE "
+        "poisoned and freed after the source was destroyed, the copy observed after each step; fixed histories on objects created "
+        "under the seedless perl-like hash whose member names collide at the last / a middle slot of a 16- and a 32-slot table "
+        "(first, second, both deleted, one re-added, every member looked up); plus a small-scope EXHAUSTIVE "
         "block (kind small-scope; sizes in coverage.small_scope): every pair of a 60-value branch table and of all trees of "
         "<= 2 slots through equal, every triple of an 18-value table, every tree of <= 3 slots x every callback answer "
         "schedule, every history of <= 2 of 23 steps (one per mutator / refusal / setting) on two documents, every tree of "
@@ -1099,6 +1101,66 @@ def extra_coverage():
             "observations_outside_the_property_text": dict(OBSERVATIONS)}
 
 
+# ---- deterministic hash-table layouts ------------------------------------------------------
+def perl_hash(key):
+    """lh_perllike_str_hash (JSON_C_STR_HASH_PERLLIKE): unsigned 32-bit, h = h*33 + c from 1; no seed"""
+    h = 1
+    for c in key:
+        h = (h * 33 + c) & 0xffffffff
+    return h
+
+
+def keys_at(slot, size, n, avoid=()):
+    """n short ASCII names whose perl-like hash lands in `slot` of a table of `size` slots"""
+    out = []
+    i = 0
+    while len(out) < n:
+        k = b"k%d" % i
+        i += 1
+        if perl_hash(k) % size == slot and k not in avoid:
+            out.append(k)
+    return out
+
+
+def gen_lastslot(out):
+    """objects created AFTER json_global_set_string_hash(PERLLIKE) (inside the history, by :A<jv>), so
+    that the slot of every member name is known: names colliding at the LAST slot of the table (the
+    probe sequence wraps to slot 0) and, for contrast, at a middle slot; the first / second / both of
+    the colliding members deleted, one re-added; then every remaining member is looked up (set to its
+    own value through its path), the tree compared with an independently built identical one and
+    with its deep copy, both ways."""
+    def obj(ms):
+        return "{" + ",".join("%s=i%d" % (J.hx(k), v) for k, v in ms) + "}"
+
+    def case(ms, dels, readd, size_note):
+        keep = [(k, v) for k, v in ms if k not in dels]
+        steps = ["@H1", ":A" + obj(ms)] + ["/i0:K" + J.hx(k) for k in dels]
+        if readd:
+            steps.append("/i0:P%s=i99" % J.hx(dels[0]))
+            keep = keep + [(dels[0], 99)]
+        steps += ["/i0/k%s:I%d" % (J.hx(k), v) for k, v in keep]            # look every member up
+        steps += ["/i0/k%s:I5" % J.hx(k) for k in dels if not (readd and k == dels[0])]   # and the deleted ones (refused)
+        out.append(("eq H [] %s [] %s @H0" % (";".join(steps), ":A" + obj(keep)), {"kind": "H-table-layout"}))
+    for size, nfill in ((16, 0), (16, 4), (32, 12)):
+        for slot in (size - 1, size // 2):
+            ks = keys_at(slot, size, 3)
+            # fillers far from the probed slots (forces the growth to 32 slots when there are 12 of them)
+            fill = []
+            j = 0
+            while len(fill) < nfill:
+                cand = keys_at(3 + (len(fill) * 2) % (size - 8), size, 1 + j, avoid=ks)[-1]
+                if cand not in fill:
+                    fill.append(cand)
+                else:
+                    j += 1
+            fm = [(k, 100 + i) for i, k in enumerate(fill)]
+            ms3 = fm + [(k, i + 1) for i, k in enumerate(ks)]
+            ms2 = fm + [(k, i + 1) for i, k in enumerate(ks[:2])]
+            for ms, dels, readd in [(ms2, [ks[0]], False), (ms3, [ks[0]], False), (ms3, [ks[1]], False), (ms3, [ks[0], ks[1]], False),
+                                    (ms3, [ks[1], ks[0]], False), (ms3, [ks[0]], True), (ms2, [ks[0]], True), (ms3, [ks[2]], False)]:
+                case(ms, dels, readd, size)
+
+
 def gen(rng, tier):
     q = tier == "quick"
     out = []
@@ -1200,6 +1262,8 @@ def gen(rng, tier):
         out.append(("eq B %s %s %s %s" % (a, conds, ud, mut), {"kind": "B-edge"}))
     for _ in range(500 if q else 15000):
         gen_B(rng, out)
+    # deterministic hash-table layouts (perl-like hash: no per-process seed)
+    gen_lastslot(out)
     # small-scope exhaustive block (no randomness)
     gen_small_scope(tier, out)
     return out
